@@ -124,6 +124,7 @@ structure Stable (cfg : Config) (net : Net) (I : St → Prop) (PoolOK : Pool →
     (Ask : Pool → Name → Prop) (Fit : Pool → List Name → Prop) (RespOK : Response → Prop) : Prop
     extends StableNs cfg net I PoolOK Ask Fit RespOK where
   cnames : ∀ st n, I st → I { st with cnames := n }
+  targets : ∀ st n, I st → I { st with targets := n }
 
 section framework
 variable {cfg : Config} {net : Net} {I : St → Prop} {PoolOK : Pool → Prop}
@@ -466,7 +467,7 @@ theorem chaseLoop_stable (S : Stable cfg net I PoolOK Ask Fit RespOK) {rec : Res
         have hc := S.cnames st (st.cnames + 1) h
         split
         · exact hc
-        · have hr := hrec ⟨target, qtype⟩ depth _ hc
+        · have hr := hrec ⟨target, qtype⟩ depth _ (S.targets _ (st.targets + 1) hc)
           split
           · rename_i st1 e heq
             rw [heq] at hr; exact hr
@@ -831,6 +832,7 @@ theorem cacheClean_stable (cfg : Config) (net : Net) : Stable cfg net CacheClean
   fitCached := fun _ _ _ _ _ _ _ _ => trivial
   fitFresh := fun _ _ _ _ _ => trivial
   cnames := fun st n h => h
+  targets := fun st n h => h
 
 /-- **`cached_in_bailiwick`**: a whole resolution — any network, any query, any limits, any
 earlier cache contents that were clean — leaves the response cache clean. -/
@@ -909,6 +911,7 @@ theorem addrInv_stable (cfg : Config) (net : Net) :
   fitCached := fun _ _ _ _ _ _ _ _ => trivial
   fitFresh := fun _ _ _ _ _ => trivial
   cnames := fun st n h => h
+  targets := fun st n h => h
 
 /-- **`ns_addrs_allowed`** (global part): whatever the network answers, every address a
 resolution contacts — and every address it leaves behind in a cached pool — is a root hint or
@@ -964,6 +967,7 @@ theorem cacheBound_stable (cfg : Config) {net : Net} {N : Nat} (hN : NetBound ne
   fitCached := fun _ _ _ _ _ _ _ _ => trivial
   fitFresh := fun _ _ _ _ _ => trivial
   cnames := fun st n h => h
+  targets := fun st n h => h
 
 /-- the CNAME counter is not touched by anything on the name-server side -/
 theorem cnamesEq_stable (cfg : Config) (net : Net) (k : Nat) :
@@ -1256,7 +1260,7 @@ theorem chaseLoop_cost {R : Nat} (hN : NetBound net N) {rec : ResRec} (hrec : Re
         have hmul : R * (st.cnames + 1) = R * st.cnames + R := by rw [Nat.mul_add, Nat.mul_one]
         split
         · dsimp only; omega
-        · have hst : CacheBound N { st with cnames := st.cnames + 1 } := h
+        · have hst : CacheBound N { st with cnames := st.cnames + 1, targets := st.targets + 1 } := h
           have hc := hrec.2 ⟨target, qtype⟩ depth _ hst
           have hs := hrec.1 ⟨target, qtype⟩ depth _ hst
           split
@@ -1384,7 +1388,7 @@ theorem chaseLoop_cn {rec : ResRec} (hrec : CnOK rec) (resp : Response) (qtype d
         · exact ⟨by dsimp only; omega, fun c hc => by cases hc⟩
         · rename_i hle
           have hle' : st.cnames + 1 ≤ MAX_CNAME_LOOKUPS := by omega
-          have hr := hrec ⟨target, qtype⟩ depth { st with cnames := st.cnames + 1 } hle'
+          have hr := hrec ⟨target, qtype⟩ depth { st with cnames := st.cnames + 1, targets := st.targets + 1 } hle'
           split
           · rename_i st1 e heq
             rw [heq] at hr
@@ -1550,6 +1554,7 @@ theorem askedMem_stable (cfg : Config) (net : Net) (a : Name × Name × Query) :
   fitCached := fun _ _ _ _ _ _ _ _ => trivial
   fitFresh := fun _ _ _ _ _ => trivial
   cnames := fun st n h => h
+  targets := fun st n h => h
 
 section returned
 variable {cfg : Config} {net : Net}
@@ -1630,8 +1635,8 @@ theorem chaseLoop_ret {rec : ResRec} (hrec : ResRet rec) (resp : Response) (qtyp
         · cases hc
         · rename_i hle
           simp only [hle, ↓reduceIte]
-          have hst : CacheClean { st with cnames := st.cnames + 1 } := h
-          have hmono := fun a => hrec.1 a ⟨target, qtype⟩ depth { st with cnames := st.cnames + 1 }
+          have hst : CacheClean { st with cnames := st.cnames + 1, targets := st.targets + 1 } := h
+          have hmono := fun a => hrec.1 a ⟨target, qtype⟩ depth { st with cnames := st.cnames + 1, targets := st.targets + 1 }
           have hcl := hrec.2.1 ⟨target, qtype⟩ depth _ hst
           have hret := hrec.2.2 ⟨target, qtype⟩ depth _ hst
           split at hc
@@ -1909,6 +1914,7 @@ theorem cacheCleanNeg_stable (cfg : Config) (net : Net) :
   fitCached := fun _ _ _ _ _ _ _ _ => trivial
   fitFresh := fun _ _ _ _ _ => trivial
   cnames := fun st n h => h
+  targets := fun st n h => h
 
 /-- **`negative_cached_in_bailiwick`**: a whole resolution over any network leaves only negative
 cache entries whose records passed the bailiwick rule. -/
@@ -2590,6 +2596,7 @@ theorem askedSound_stable (cfg : Config) (net : Net) :
   fitFresh := fun p z zs ips hfit =>
     ⟨fun z' hz' => (List.pairwise_cons.1 hfit.2).1 z' hz', hfit.2.of_cons⟩
   cnames := fun st n h => h
+  targets := fun st n h => h
 
 /-- **`asked_in_pool_zone`**: in a whole resolution, for every network, every `lookup` call hands
 its filter a zone inside the zone of the pool it asks. -/
@@ -2900,6 +2907,7 @@ theorem cacheAns_stable (cfg : Config) (net : Net) :
   fitCached := fun _ _ _ _ _ _ _ _ => trivial
   fitFresh := fun _ _ _ _ _ => trivial
   cnames := fun st n h => h
+  targets := fun st n h => h
 
 theorem answerQuery_ans (q : Query) (pool : Pool) (st : St) (h : CacheAns cfg st) (r : Response)
     (hr : (answerQuery cfg net q pool st).2 = .ok r) : ∀ x ∈ r.all, AnsOK cfg x := by
@@ -2939,7 +2947,7 @@ theorem chaseLoop_ans {rec : ResRec} (hrec : ResAns cfg rec) (resp : Response) (
       · dsimp only at hc
         split at hc
         · cases hc
-        · have hst : CacheAns cfg { st with cnames := st.cnames + 1 } := h
+        · have hst : CacheAns cfg { st with cnames := st.cnames + 1, targets := st.targets + 1 } := h
           have hcl := hrec.1 ⟨target, qtype⟩ depth _ hst
           have hret := hrec.2 ⟨target, qtype⟩ depth _ hst
           split at hc
@@ -3051,6 +3059,7 @@ theorem cacheAnsNeg_stable (cfg : Config) (net : Net) :
   fitCached := fun _ _ _ _ _ _ _ _ => trivial
   fitFresh := fun _ _ _ _ _ => trivial
   cnames := fun st n h => h
+  targets := fun st n h => h
 
 theorem ansNeg_of_cache {st : St} (h : CacheAnsNeg cfg st) {q : Query} {e : Err}
     (hg : rcGet st.rcache q = some (.error e)) : ∀ x ∈ errRecords e, AnsOK cfg x := by
@@ -3148,7 +3157,7 @@ theorem chaseLoop_errAns {rec : ResRec} (hrec : ResErrAns cfg rec) (resp : Respo
       · dsimp only at he
         split at he
         · cases he; intro x hx; simp [errRecords] at hx
-        · have hst : CacheAnsNeg cfg { st with cnames := st.cnames + 1 } := h
+        · have hst : CacheAnsNeg cfg { st with cnames := st.cnames + 1, targets := st.targets + 1 } := h
           have hcl := hrec.1 ⟨target, qtype⟩ depth _ hst
           have her := hrec.2 ⟨target, qtype⟩ depth _ hst
           split at he
@@ -3610,6 +3619,7 @@ theorem sendInv_stable (cfg : Config) {net : Net} {N R : Nat} (hN : NetBound net
   fitCached := fun _ _ _ _ _ _ _ _ => trivial
   fitFresh := fun _ _ _ _ _ => trivial
   cnames := fun st n h => h
+  targets := fun st n h => h
 
 /-- **`sends_bounded`**: for every network whose responses carry at most `N` NS records and at most
 `R` records, one resolution hands at most `Pmax · B(L, N)` `(address, query)` pairs to the network,
@@ -3753,7 +3763,7 @@ theorem chaseLoop_err {rec : ResRec} (hrec : ResErr rec) (resp : Response) (qtyp
           cases he; intro x hx; simp [errRecords] at hx
         · rename_i hgt
           simp only [hgt, ↓reduceIte]
-          have hst : CacheCleanNeg { st with cnames := st.cnames + 1 } := h
+          have hst : CacheCleanNeg { st with cnames := st.cnames + 1, targets := st.targets + 1 } := h
           have hcl := hrec.1 ⟨target, qtype⟩ depth _ hst
           have her := hrec.2 ⟨target, qtype⟩ depth _ hst
           split at he
@@ -4003,6 +4013,259 @@ example : Acs.denied ⟨[], [⟨true, 0xffff * 2 ^ 32, 96⟩]⟩ mapped = false 
 end Ex
 
 end acl
+
+/-! ## 19. `cname_budget_bounds_work`: at most 64 CNAME-target resolutions per request, whatever
+the alias graph
+
+The budget (`cname_limit`, `MAX_CNAME_LOOKUPS`) is charged in `resolve_cnames` for every target it
+is about to resolve — before the recursive `resolve`, whether the target's answer is in the
+response cache or not.  So the number of target resolutions a request *starts* (`St.targets`, a
+ghost counter) is bounded by the budget even when the aliases form a DAG with fan-out, where the
+number of paths is exponential and every name is fetched from the network only once. -/
+
+section budget
+variable {cfg : Config} {net : Net}
+
+theorem trySend_ct (net : Net) (q : Query) : ∀ (ips : List Ip) (st : St),
+    (trySend net q ips st).1.targets = st.targets := by
+  intro ips
+  induction ips with
+  | nil => intro st; rfl
+  | cons ip rest ih =>
+    intro st
+    unfold trySend
+    dsimp only
+    split
+    · rw [ih]
+    · rfl
+
+theorem poolLookup_targets (pool : Pool) (q : Query) (st : St) :
+    (poolLookup cfg net pool q st).1.targets = st.targets := by
+  have := trySend_ct net q pool.ips { st with lookups := st.lookups + 1 }
+  unfold poolLookup
+  dsimp only
+  split <;> rename_i heq <;> rw [heq] at this <;> exact this
+
+theorem cacheOk_targets (st : St) (q : Query) (r : Response) : (cacheOk st q r).targets = st.targets := by
+  unfold cacheOk; split <;> rfl
+
+theorem cacheErr_targets (st : St) (q : Query) (e : Err) : (cacheErr st q e).targets = st.targets := by
+  unfold cacheErr
+  split
+  · split <;> rfl
+  · rfl
+
+theorem lookup_targets (q : Query) (zone : Name) (pool : Pool) (st : St) :
+    (lookup cfg net q zone pool st).1.targets = st.targets := by
+  have := poolLookup_targets (cfg := cfg) (net := net) pool q
+    { st with asked := (pool.zone, zone, q) :: st.asked }
+  unfold lookup
+  dsimp only
+  split
+  · rename_i st1 e heq
+    rw [heq] at this
+    rw [cacheErr_targets]; exact this
+  · rename_i st1 r heq
+    rw [heq] at this
+    split
+    · exact this
+    · rw [cacheOk_targets]; exact this
+
+/-- nothing on the name-server side touches the budget or the ghost counter -/
+theorem ctEq_stable (cfg : Config) (net : Net) (c t : Nat) :
+    StableNs cfg net (fun st => st.cnames = c ∧ st.targets = t) (fun _ => True)
+      (fun _ _ => True) (fun _ _ => True) (fun _ => True) where
+  root := trivial
+  cached := fun _ _ _ _ _ => trivial
+  respCached := fun _ _ _ _ _ => trivial
+  respLookup := fun _ _ _ _ _ _ => trivial
+  fresh := fun _ _ _ _ _ _ _ _ => trivial
+  rezone := fun _ _ _ => trivial
+  poolLookup := by
+    intro st pool q h _
+    exact ⟨by rw [(poolLookup_frame cfg net pool q st).2.2.2.1]; exact h.1,
+      by rw [poolLookup_targets]; exact h.2⟩
+  lookup := by
+    intro st pool q zone h _ _
+    exact ⟨by rw [(lookup_frame cfg net q zone pool st).2.1]; exact h.1,
+      by rw [lookup_targets]; exact h.2⟩
+  nsPut := fun st z p h _ => h
+  askSelf := fun _ _ => trivial
+  fitRoot := fun _ => trivial
+  fitHead := fun _ _ _ _ => trivial
+  fitTail := fun _ _ _ _ => trivial
+  fitCached := fun _ _ _ _ _ _ _ _ => trivial
+  fitFresh := fun _ _ _ _ _ => trivial
+
+/-- the accounting: started target resolutions are paid for by budget below the cap -/
+def Paid (st st' : St) : Prop :=
+  st'.targets + min st.cnames MAX_CNAME_LOOKUPS ≤ st.targets + min st'.cnames MAX_CNAME_LOOKUPS ∧
+    st.cnames ≤ st'.cnames
+
+def TgOK (rec : ResRec) : Prop := ∀ q d st, Paid st (rec q d st).1
+
+theorem chaseLoop_paid {rec : ResRec} (hrec : TgOK rec) (resp : Response) (qtype depth : Nat) :
+    ∀ (rs chain : List Record) (st : St), Paid st (chaseLoop rec resp qtype depth rs chain st).1 := by
+  intro rs
+  induction rs with
+  | nil => intro chain st; simp [chaseLoop, Paid]
+  | cons r rs ih =>
+    intro chain st
+    unfold chaseLoop
+    split
+    · exact ih chain st
+    · rename_i target _
+      split
+      · exact ih chain st
+      · dsimp only
+        split
+        · unfold Paid MAX_CNAME_LOOKUPS
+          dsimp only
+          omega
+        · rename_i hle
+          have hr := hrec ⟨target, qtype⟩ depth
+            { st with cnames := st.cnames + 1, targets := st.targets + 1 }
+          split
+          · rename_i st1 e heq
+            rw [heq] at hr
+            unfold Paid MAX_CNAME_LOOKUPS at hr ⊢
+            unfold MAX_CNAME_LOOKUPS at hle
+            dsimp only at hr ⊢
+            omega
+          · rename_i st1 r' heq
+            rw [heq] at hr
+            have := ih (chain ++ r'.answers.filter (chainKeeps qtype)) st1
+            unfold Paid MAX_CNAME_LOOKUPS at hr this ⊢
+            unfold MAX_CNAME_LOOKUPS at hle
+            dsimp only at hr
+            omega
+
+theorem paid_refl (st : St) : Paid st st := ⟨Nat.le_refl _, Nat.le_refl _⟩
+
+theorem resolveCnames_paid {rec : ResRec} (hrec : TgOK rec) (resp : Response) (q : Query)
+    (depth : Nat) (st : St) : Paid st (resolveCnames cfg rec resp q depth st).1 := by
+  unfold resolveCnames
+  split
+  · exact paid_refl st
+  · split
+    · exact paid_refl st
+    · dsimp only
+      split
+      · exact paid_refl st
+      · have hc := chaseLoop_paid hrec resp q.qtype (depth + 1) resp.all [] st
+        split
+        · rename_i st1 e heq; rw [heq] at hc; exact hc
+        · rename_i st1 chain heq; rw [heq] at hc; exact hc
+
+theorem paid_of_eq {st st1 st2 : St} (hc : st1.cnames = st.cnames) (ht : st1.targets = st.targets)
+    (h : Paid st1 st2) : Paid st st2 := by
+  unfold Paid at h ⊢
+  rw [hc, ht] at h
+  exact h
+
+theorem answerQuery_ct (q : Query) (pool : Pool) (st : St) :
+    (answerQuery cfg net q pool st).1.cnames = st.cnames ∧
+    (answerQuery cfg net q pool st).1.targets = st.targets := by
+  have hl := lookup_frame cfg net q pool.zone pool st
+  have ht := lookup_targets (cfg := cfg) (net := net) q pool.zone pool st
+  unfold answerQuery
+  split
+  · exact ⟨rfl, rfl⟩
+  · split
+    · exact ⟨rfl, rfl⟩
+    · exact ⟨hl.2.1, ht⟩
+  · exact ⟨hl.2.1, ht⟩
+
+theorem resolveMiss_paid {rec : ResRec} (hrec : TgOK rec) (q : Query) (depth : Nat) (st : St) :
+    Paid st (resolveMiss cfg net rec q depth st).1 := by
+  unfold resolveMiss
+  dsimp only
+  have hn := nsPoolForName_stable (ctEq_stable cfg net st.cnames st.targets)
+    (if q.qtype == T_DS then base q.name else q.name) depth st ⟨rfl, rfl⟩
+  split
+  · rename_i st1 e heq
+    rw [heq] at hn
+    have := hn.1
+    dsimp only at this
+    split <;> exact paid_of_eq (st1 := st1) this.1 this.2 (paid_refl st1)
+  · rename_i st1 d1 pool heq
+    rw [heq] at hn
+    have h1 := hn.1
+    dsimp only at h1
+    obtain ⟨a1, a2⟩ := answerQuery_ct (cfg := cfg) (net := net) q pool st1
+    split
+    · rename_i st2 e heq2
+      rw [heq2] at a1 a2
+      dsimp only at a1 a2
+      exact paid_of_eq (st1 := st2) (by rw [a1, h1.1]) (by rw [a2, h1.2]) (paid_refl st2)
+    · rename_i st2 resp heq2
+      rw [heq2] at a1 a2
+      dsimp only at a1 a2
+      rw [stripRes_fst]
+      exact paid_of_eq (st1 := st2) (by rw [a1, h1.1]) (by rw [a2, h1.2])
+        (resolveCnames_paid hrec resp q d1 st2)
+
+theorem resolveFuel_paid : ∀ f, TgOK (resolveFuel cfg net f) := by
+  intro f
+  induction f with
+  | zero => intro q d st; exact paid_refl st
+  | succ f ih =>
+    intro q d st
+    unfold resolveFuel
+    split
+    · exact paid_refl st
+    · rename_i r0 _
+      split
+      · rw [stripRes_fst]
+        exact resolveCnames_paid ih r0 q d st
+      · exact resolveMiss_paid ih q d st
+    · exact resolveMiss_paid ih q d st
+
+/-- **`cname_budget_bounds_work`**: for every network — every alias graph: chains, loops, diamonds,
+layered DAGs with any fan-out — and every cache content, one request starts at most
+`MAX_CNAME_LOOKUPS` (64) CNAME-target resolutions. -/
+theorem cname_budget_bounds_work (cfg : Config) (net : Net) (q : Query) (st : St) :
+    (resolve cfg net q st).1.targets ≤ st.targets + MAX_CNAME_LOOKUPS := by
+  unfold resolve
+  split
+  · dsimp only; omega
+  · have := resolveFuel_paid (cfg := cfg) (net := net) (cfg.recursionLimit + 1) q 0
+      { st with cnames := 0 }
+    unfold Paid MAX_CNAME_LOOKUPS at this
+    unfold MAX_CNAME_LOOKUPS
+    dsimp only at this
+    omega
+
+namespace Ex
+def l (i j : Nat) : Name := ⟨[[108, 48 + i, 48 + j], [100]], true⟩   -- l<i><j>.d.
+
+/-- a layered alias DAG served by the root itself: every name of layer `i < 5` aliases all three
+names of layer `i + 1` (3 CNAME records per owner), layer 5 has addresses: 3⁵ = 243 paths -/
+def dagNet : Net := fun _ q =>
+  if q.qtype == T_NS then
+    .msg { rcode := 0, aa := true, answers := [], authorities := [⟨Name.root, 300, .soa 300⟩],
+           additionals := [] }
+  else
+    match q.name.labels with
+    | [[108, i, _], [100]] =>
+      if i < 48 + 5 then
+        .msg { rcode := 0, aa := true,
+               answers := [⟨q.name, 300, .cname (l (i - 48 + 1) 0)⟩, ⟨q.name, 300, .cname (l (i - 48 + 1) 1)⟩,
+                           ⟨q.name, 300, .cname (l (i - 48 + 1) 2)⟩],
+               authorities := [], additionals := [] }
+      else .msg { rcode := 0, aa := true, answers := [⟨q.name, 300, .a 7⟩], authorities := [],
+                  additionals := [] }
+    | _ => .msg { rcode := 3, aa := true, answers := [], authorities := [], additionals := [] }
+
+/-- 243 paths, but the request stops with the budget error after exactly 64 started target
+resolutions (16 names fetched from the network, the rest of the 64 answered by the cache) -/
+example :
+    let res := resolve (Ex.cfg 24) dagNet ⟨l 0 0, T_A⟩ St.empty
+    isErr .cnameLimit res.2 = true ∧ res.1.targets = 64 ∧ res.1.cnames = 65 := by
+  decide +kernel
+end Ex
+
+end budget
 
 /-! non-vacuity of the composite statements: the empty state satisfies every invariant -/
 example (cfg : Config) (net : Net) (q : Query) :=
